@@ -350,6 +350,9 @@ Proof.
     + simpl. rewrite H2, H4. reflexivity.
 Qed.
 
+Lemma reorder_fields_refl fs : reorder_fields fs fs.
+Proof. induction fs as [|[n v] fs IH]; constructor; [apply ro_refl|exact IH]. Qed.
+
 Lemma canon_perm_invariant_l a b : reorder a b -> canon tb a = canon tb b.
 Proof. intros H. apply (proj1 reorder_sound_all a b H). Qed.
 
